@@ -2804,7 +2804,27 @@ func cmd10(c *Ctx) {
 	parser := c.fnOpt("internal/parser", "Parse")
 	isSpecLoad := func(v ssa.Value) bool {
 		b, f, ok := ir.FieldLoad(v)
-		return ok && f == "Spec" && b == ssa.Value(recv)
+		if ok && f == "Spec" && b == ssa.Value(recv) {
+			return true
+		}
+		// the Spec field of a parameter record built here whose Spec is the command's (the scanner is
+		// called by a helper that was handed the record)
+		if ok && f == "Spec" {
+			var lit *ssa.Alloc
+			if al, isAl := b.(*ssa.Alloc); isAl {
+				lit = al
+			} else {
+				lit = literalArg(b)
+			}
+			if lit != nil {
+				fields, whole := litFields(lit)
+				if vs := fields["Spec"]; len(whole) == 0 && len(vs) == 1 {
+					b2, f2, ok2 := ir.FieldLoad(vs[0])
+					return ok2 && f2 == "Spec" && b2 == ssa.Value(recv)
+				}
+			}
+		}
+		return false
 	}
 	var scan, pcall *ssa.Call
 	for _, call := range ir.Calls(fn) {
